@@ -8,12 +8,20 @@ Driver/Regex.lean — commands for C10 / C11.
   RX_VALIDATE <s>          → ok | err <Class>
   RX_COMPILE <s> <Σ>       → ok NFA … | err <Class>      (symbols are code points)
   RX_PIPE <s> <Σ>          → validate <res> compile <res nstates>
-  RX_CMP <s1> <s2> <Σ>     → ok eq sub sup | err <Class> | budget (driver-side search limit)
+  RX_PIPE2 <s> <Σ>         → validate <res> compile <res nstates> compile_sigma <res nstates>
+                             (compile = default alphabet, compile_sigma = the given alphabet)
+  RX_CMP <s1> <s2> <Σ>     → ok eq sub sup chk <same|differ|budget> | err <Class>
+                             eq/sub/sup = the MODEL helpers `Rx.isequal (eqLib …)`,
+                             `Rx.issubset (eqLib …) uniLib`, `Rx.issuperset (eqLib …) uniLib`
+                             (Model/RxCompile.lean + Model/RxCompare.lean: the terms of
+                             `C11_comparisons_lib`); chk = cross-check of the three answers
+                             against a driver-side subset search on the two compiled NFAs
 
 tokens print as  LP RP U I S ST PL OP Q:lo:hi CC L:cp,cp… W .
 -/
 import AutomataVerif.Driver.Proto
 import AutomataVerif.Model.RxCompile
+import AutomataVerif.Model.RxCompare
 
 namespace AV.Driver.Regex
 open AV AV.Proto AV.Rx
@@ -70,8 +78,17 @@ def rxPipe : P String := do
     "validate", showRes (fun _ => "") (Rx.validate s),
     "compile", showRes (fun n => toString n.states.length) (fromRegex s sy)])
 
+def rxPipe2 : P String := do
+  let s ← str
+  let sy ← optSyms
+  pure (" ".intercalate [
+    "validate", showRes (fun _ => "") (Rx.validate s),
+    "compile", showRes (fun n => toString n.states.length) (fromRegex s none),
+    "compile_sigma", showRes (fun n => toString n.states.length) (fromRegex s sy)])
+
 /-! Language comparison of two compiled NFAs by on-the-fly determinisation of the product
-(driver-side helper for RX_CMP; not part of the verified model). -/
+(driver-side CROSS-CHECK for RX_CMP only; not part of the verified model — the answers of RX_CMP
+come from the model helpers). -/
 
 def normSet (l : List Nat) : List Nat :=
   (sortInts (l.map Int.ofNat)).map Int.toNat
@@ -98,16 +115,23 @@ def rxCmp : P String := do
   let s1 ← str
   let s2 ← str
   let sy ← optSyms
-  match fromRegex s1 sy with
-  | .error e => pure ("err " ++ e.name)
-  | .ok n1 =>
-    match fromRegex s2 sy with
-    | .error e => pure ("err " ++ e.name)
-    | .ok n2 =>
-      match langSubset n1 n2, langSubset n2 n1 with
-      | some sub, some sup =>
-          pure (" ".intercalate ["ok", showBool (sub && sup), showBool sub, showBool sup])
-      | _, _ => pure "budget"
+  -- the model of regex.py's helpers, instantiated with the models of `==` (C09) and `union` (C08)
+  let eq := eqLib drvPick drvPick
+  match Rx.isequal eq s1 s2 sy, Rx.issubset eq uniLib s1 s2 sy, Rx.issuperset eq uniLib s1 s2 sy with
+  | .ok e, .ok sub, .ok sup =>
+    -- cross-check only: unverified subset search on the two compiled NFAs
+    let chk :=
+      match fromRegex s1 sy, fromRegex s2 sy with
+      | .ok n1, .ok n2 =>
+        match langSubset n1 n2, langSubset n2 n1 with
+        | some xsub, some xsup =>
+            if (xsub && xsup) == e && xsub == sub && xsup == sup then "same" else "differ"
+        | _, _ => "budget"
+      | _, _ => "differ"
+    pure (" ".intercalate ["ok", showBool e, showBool sub, showBool sup, "chk", chk])
+  | .error e, _, _ => pure ("err " ++ e.name)
+  | _, .error e, _ => pure ("err " ++ e.name)
+  | _, _, .error e => pure ("err " ++ e.name)
 
 def handle (cmd : String) (args : List String) : Except String String :=
   match cmd with
@@ -116,6 +140,7 @@ def handle (cmd : String) (args : List String) : Except String String :=
   | "RX_VALIDATE" => run (do let s ← str; pure (showRes (fun _ => "") (Rx.validate s))) args
   | "RX_COMPILE" => run rxCompile args
   | "RX_PIPE" => run rxPipe args
+  | "RX_PIPE2" => run rxPipe2 args
   | "RX_CMP" => run rxCmp args
   | "PING" => .ok "pong"
   | _ => .error s!"unknown command {cmd}"
